@@ -3,6 +3,7 @@ from .. import core, sched
 from ..gen import KEY_POOL, hx, rng_for
 
 ENGINES = ["memkv", "badger", "tikv"]
+EXTRA_PROP_MODULES = [("KB.Props.C11Conflict", "KB.C11Conflict")]
 
 
 def exhaustive_pairs(seed, engine):
@@ -75,6 +76,99 @@ def stress_oracle(case):
     return None
 
 
+# ------------------------------------------------------------------ a writer that is abandoned (TiKV rollback record)
+#
+# `prebegin <id>` begins an engine transaction (on TiKV: its start timestamp) that a later request `… txn=<id>` commits
+# its batch through - client B, slow between BeginBatchWrite and Commit. `… abandon=1` (cfg rpcfault=abandon) is client
+# A, who goes away once the PREWRITE of its transaction has reached the cluster: client-go rolls it back and a rollback
+# record newer than B's start timestamp stays on the key's index record. A is not applied, the key never changes: B,
+# naming the revision the key has, must succeed (or fail with an error) - never "condition failed".
+
+def abandon_case(seed, i, engine, shape=None):
+    from .. import hist
+    r = rng_for(seed, "c01abandon/%d" % i)
+    k = r.choice([b"/r/a", b"/r/pods/p1", b"/r/a/b"])
+    other = b"/r/other"
+    verb_b, verb_a, n_abandon, twist = shape or (r.choice(["update", "update", "delete", "create"]), r.choice(["update", "delete"]),
+                                                 r.choice([1, 1, 2]), r.choice(["none", "none", "none", "stale", "real", "other"]))
+    lines = [hist.cfg_line(engine, retry=0, check=5, rpcfault="abandon"), "arm retry.step"]
+    rev = hist.INIT
+    if r.random() < 0.5:
+        lines += ["create %s %s" % (hx(other), hx(b"o1")), "rev"]
+        rev += 1
+    cur = None
+    if verb_b != "create":
+        lines += ["create %s %s" % (hx(k), hx(b"v1")), "rev"]
+        rev += 1
+        cur = rev
+        if r.random() < 0.4:
+            lines += ["update %s %s %d" % (hx(k), hx(b"v2"), cur), "rev"]
+            rev += 1
+            cur = rev
+
+    def req(verb, val, exp):
+        if verb == "create":
+            return "create %s %s" % (hx(k), hx(val))
+        if verb == "update":
+            return "update %s %s %d" % (hx(k), hx(val), exp)
+        return "delete %s %d" % (hx(k), exp)
+
+    lines += ["get %s 0" % hx(k), "prebegin b1"]
+    for j in range(n_abandon):
+        va = "create" if cur is None else verb_a
+        lines += [req(va, b"vA%d" % j, cur or 0) + " abandon=1", "rev", "await retry.step"]
+        rev += 1
+        if j + 1 < n_abandon:
+            lines += ["retry", "rev", "await retry.step"]      # A's repair finds the key untouched: unnecessary
+    exp_b = cur or 0
+    if twist == "real" and cur is not None:
+        # the key REALLY changes while B is open: B's answer `condition failed` is then the right one
+        lines += ["update %s %s %d" % (hx(k), hx(b"vX"), cur), "rev"]
+        rev += 1
+    elif twist == "stale" and cur is not None:
+        exp_b = cur - 1 if cur - 1 > hist.INIT else cur + 7
+    elif twist == "other":
+        lines += ["create %s %s" % (hx(b"/r/other2"), hx(b"o2")), "rev"]
+        rev += 1
+    lines += [req(verb_b, b"vB", exp_b) + " txn=b1", "rev", "get %s 0" % hx(k)]
+    lines += ["retry", "rev", "await retry.step"]
+    # afterwards the key behaves as usual
+    lines += ["get %s 0" % hx(k), "list %s %s 0 0" % (hx(b"/r/"), hx(b"/r0")), "dump"]
+    return core.Case("backend", lines, {"engine": engine, "abandon": True})
+
+
+def abandon_oracle(case):
+    """C01, last clause, on the implementation's transcript alone: a guarded write that ran through a transaction begun
+    at `prebegin` is answered 'condition failed' although the key showed the expected revision in the read before the
+    transaction began AND in the read after the answer. A key's revisions only grow (C02), so the same revision at both
+    ends means the key never differed from the expectation while the request was in flight."""
+    from .. import hist
+    last_get = {}     # key -> (line index, parsed kv or None)
+    pre = None        # snapshot of last_get at the most recent `prebegin`
+    pending = []      # (line index, line, out, key, exp, before)
+    for i, (line, out) in enumerate(zip(case.lines, case.impl)):
+        t, o = line.split(), out.split()
+        if t[0] == "get" and len(o) == 3 and o[1] != "err":
+            kv = hist.parse_kv(o[2])
+            last_get[t[1]] = (i, kv)
+            for p in [p for p in pending if p[3] == t[1]]:
+                pending.remove(p)
+                j, pl, po, key, exp, before = p
+                if before is not None and before[1] is not None and before[1][2] == exp and kv is not None and kv[2] == exp:
+                    return ("line %d: `%s` was answered 'condition failed' (%s) although key %s had revision %d - the revision "
+                            "the request named - when its transaction began (line %d: %s) and still has it afterwards (line %d: %s): "
+                            "the key never changed while the request was in flight; the only other writer was abandoned "
+                            "and not applied" % (j + 1, pl, po, key, exp, before[0] + 1, case.impl[before[0]], i + 1, out),
+                            "condition-failed-but-key-never-changed")
+        elif t[0] == "prebegin":
+            pre = dict(last_get)
+        elif t[0] in ("update", "delete") and any(x.startswith("txn=") for x in t) and len(o) >= 2 and o[1] == "cf":
+            exp = int(t[3]) if t[0] == "update" else int(t[2])
+            if exp != 0 and pre is not None:
+                pending.append((i, line, out, t[1], exp, pre.get(t[1])))
+    return None
+
+
 def check(rep, tier, seed):
     n, n_clients = (30, 4) if tier == "quick" else (1500, 5)
     cases = []
@@ -93,11 +187,22 @@ def check(rep, tier, seed):
     from . import c07
     comp = [c07.race_case(seed, 2 * i + 1, ["tikv", "badger", "memkv"][i % 3]) for i in range(12 if tier == "quick" else 300)]
     cases += comp
+    # abandoned writers on tikv (rollback records): quick = the guarded update and the guarded delete, bare and behind
+    # the storage-metrics wrapper, + one random shape
+    ab = [abandon_case(seed, 0, "tikv", ("update", "update", 1, "none")), abandon_case(seed, 1, "metrics-tikv", ("delete", "update", 1, "none"))]
+    ab += [abandon_case(seed, 2 + i, ("tikv", "metrics-tikv")[i % 2]) for i in range(1 if tier == "quick" else 300)]
+    cases += ab
     core.run_cases(cases)
-    pick = lambda c: stress_oracle(c) if c.meta.get("stress") else (sched.oracle_c01(c) or sched.oracle_cf_justified(c))
+    pick = lambda c: abandon_oracle(c) if c.meta.get("abandon") else (
+        stress_oracle(c) if c.meta.get("stress") else (sched.oracle_c01(c) or sched.oracle_cf_justified(c)))
+    # a concrete failing input of the newest clause first
+    if core.judge(rep, "C01", ab, pick):
+        return
+    cases = [c for c in cases if not c.meta.get("abandon")]
     if core.judge(rep, "C01", cases, pick):
         return
     rep.cov["exhaustive_pair_schedules"] = len(ex)
+    rep.cov["abandoned_writer_scripts"] = len(ab)
     rep.assumptions += ["each engine serialises overlapping transactions on one index key (memkv store mutex, badger SSI, tikv optimistic conflict): "
                         "the gated harness applies each batch atomically at its release point",
                         "exhaustive part: all interleavings of 2 clients x 21 request-shape pairs on one live key (quick: memkv; thorough: all engines)"]
